@@ -740,6 +740,10 @@ class Model(Object):
                 # TODO: Should we add a copy of the metabolite instead?
                 if metabolite not in self.metabolites:
                     self.add_metabolites(metabolite)
+                    # The metabolite may be an object that left the model earlier
+                    # (e.g. removed as an orphan together with this reaction) and
+                    # no longer knows the reaction.
+                    metabolite._reaction.add(reaction)
                 # A copy of the metabolite exists in the model, the reaction
                 # needs to point to the metabolite in the model.
                 else:
